@@ -27,7 +27,16 @@ P = {
          "and not decided.",
          TRUST,
          "§3 C02"),
- "C03": (False, "", "", "", "§3 C03"),
+ "C03": (True,
+         "guard analysis for lossy numeric conversions on SSA with exact (math/big) bound evaluation and NaN polarity tracking (E4, custom)",
+         "Decides 'never wraps around' for all values at once: every lossy conversion instruction (float->integer, signed<->unsigned, narrowing), every "
+         "Duration multiplication with a non-constant operand and every reflect.Value.Convert of a possible number in the root package must be "
+         "dominated by comparison facts on the same operand that imply the destination range, with constants evaluated exactly after the rounding "
+         "of the comparison's type (math.MaxInt64 as float64 is 2^63, so the bound must be strict) and at least one true-edge fact for floats (NaN). "
+         "Thorough tier repeats the rules for GOARCH=386. Two known findings (reflect fall-through for unsupported kinds; int(idx) on 32-bit). "
+         "That an in-range number is stored exactly, and strconv/time parsing, are not decided.",
+         TRUST + "strconv and time.ParseDuration trusted.",
+         "§3 C03"),
  "C04": (True,
          "must-pass-through analysis on SSA control-flow graphs, path-sensitive refinement, slots closed under forwarding (custom analyzer)",
          "Decides that no traversal path of the unpack family skips validation, for all target types and configurations: every successful return of "
